@@ -1,5 +1,5 @@
 //! C09 — unknown operators follow the published opcode cost rule.
-//! Oracle: the rule restated with u128 arithmetic (no wrapping, no early exits).
+//! Oracle: the rule restated with u64 arithmetic (no wrapping, no early exits).
 use crate::util::*;
 use clvmr::allocator::{Allocator, NodePtr};
 use clvmr::chia_dialect::ClvmFlags;
@@ -14,20 +14,20 @@ enum Arg {
 }
 
 /// Some(base) or None when an atom argument is required and a pair is found
-fn model_base(cf: u8, new_model: bool, args: &[Arg; 3], k: usize) -> Option<u128> {
+fn model_base(cf: u8, new_model: bool, args: &[Arg; 3], k: usize) -> Option<u64> {
     if cf == 0 {
         return Some(1);
     }
-    let mut cost: u128 = match cf {
+    let mut cost: u64 = match cf {
         1 => 99,
         2 => if new_model { 2000 } else { 92 },
         _ => 142,
     };
-    let mut acc: u128 = 0; // add-like: running max; mul-like: running sum
+    let mut acc: u64 = 0; // add-like: running max; mul-like: running sum
     let mut i = 0;
     while i < k {
         let len = match args[i] {
-            Arg::Atom(l) => l as u128,
+            Arg::Atom(l) => l as u64,
             Arg::Pair => return None,
         };
         match cf {
@@ -48,7 +48,7 @@ fn model_base(cf: u8, new_model: bool, args: &[Arg; 3], k: usize) -> Option<u128
                         cost += 6 * len;
                     }
                 } else {
-                    let div: u128 = if new_model { 16 } else { 128 };
+                    let div: u64 = if new_model { 16 } else { 128 };
                     cost += 885 + 6 * (acc + len) + (acc * len) / div;
                     acc += len;
                 }
@@ -62,105 +62,229 @@ fn model_base(cf: u8, new_model: bool, args: &[Arg; 3], k: usize) -> Option<u128
     Some(cost)
 }
 
-fn run(new_model: bool, max_args: usize) {
-    let mut a = Allocator::new();
-    // opcode: 1..=6 symbolic bytes, as a view of a heap atom (no symbolic-length copies)
-    let ob: [u8; 8] = kani::any();
-    let base_atom = a.new_atom(&ob).unwrap();
-    let n: usize = kani::any();
-    kani::assume(n <= 6);
-    let o = a.new_substr(base_atom, 0, n as u32).unwrap();
+/// N = opcode length (concrete), K = number of arguments (concrete); opcode bytes, argument lengths
+/// (any u32, length-only atoms), which argument is a pair, cost model and budget are symbolic.
+fn run<const N: usize, const K: usize>(new_model: bool) {
+    run_cf::<N, K>(new_model, None)
+}
 
-    // argument list: k <= max_args items, each an atom of symbolic length (up to 2^32-1) or a pair
-    let k: usize = kani::any();
-    kani::assume(k <= max_args);
-    let mut margs = [Arg::Atom(0); 3];
-    let term_pair: bool = kani::any();
-    let mut list = if term_pair { a.nil() } else { a.one() }; // improper terminators are ignored
-    let some_pair = a.new_pair(list, list).unwrap();
-    let mut i = max_args;
-    while i > 0 {
-        i -= 1;
-        let is_pair: bool = kani::any();
-        let len: u32 = kani::any();
-        let node = if is_pair { some_pair } else { a.verif_atom_span(0, len) };
-        margs[i] = if is_pair { Arg::Pair } else { Arg::Atom(len) };
-        if i < k {
-            list = a.new_pair(node, list).unwrap();
+/// `cf`: the cost-function bits made concrete (one harness per function) to keep 2-argument cases solvable
+fn run_cf<const N: usize, const K: usize>(new_model: bool, cf_fixed: Option<u8>) {
+    run_cf_b::<N, K>(new_model, cf_fixed, 1 << 21, true)
+}
+
+/// `len_bound`: exclusive bound on argument lengths; `pairs`: whether one argument may be a pair
+fn run_cf_b<const N: usize, const K: usize>(new_model: bool, cf_fixed: Option<u8>, len_bound: u32, pairs: bool) {
+    let mut a = Allocator::new();
+    let mut ob: [u8; 8] = kani::any();
+    if let Some(cf) = cf_fixed {
+        if N >= 1 {
+            ob[N - 1] = (cf << 6) | (ob[N - 1] & 0x3f);
         }
     }
+    let base_atom = a.new_atom(&ob).unwrap();
+    let o = a.new_substr(base_atom, 0, N as u32).unwrap();
+    let n = N;
+
+    let mut margs = [Arg::Atom(0); 3];
+    let one = a.one();
+    let some_pair = a.new_pair(one, one).unwrap();
+    // which argument (if any) is a pair: K means none
+    let pair_at: usize = kani::any();
+    kani::assume(pair_at <= K);
+    if !pairs {
+        kani::assume(pair_at == K);
+    }
+    let mut nodes = [NodePtr::NIL; 3];
+    let mut i = 0;
+    while i < K {
+        let len: u32 = kani::any();
+        // bound: argument atoms shorter than 2 MiB (keeps the rule's arithmetic inside u64 without
+        // 128-bit products; the legacy 64-bit wrap needs base >= 2^33, reached by two 1 MiB atoms)
+        kani::assume(len < len_bound);
+        if i == pair_at {
+            nodes[i] = some_pair;
+            margs[i] = Arg::Pair;
+        } else {
+            nodes[i] = a.verif_atom_span(0, len);
+            margs[i] = Arg::Atom(len);
+        }
+        i += 1;
+    }
+    let mut list = a.nil();
+    let mut i = K;
+    while i > 0 {
+        i -= 1;
+        list = a.new_pair(nodes[i], list).unwrap();
+    }
+    let k = K;
     let max_cost: u64 = kani::any();
     let flags = if new_model { ClvmFlags::NEW_COST_MODEL } else { ClvmFlags::empty() };
     let r = op_unknown(&mut a, o, list, max_cost, flags);
 
-    // ---- the published rule
+    // ---- the published rule (cover points are collected in flags and checked once at the end, so
+    // that shapes in which a scenario cannot occur do not report a missing witness)
+    let mut w_reserved = false;
+    let mut w_pair = false;
+    let mut w_budget = false;
+    let mut w_over = false;
+    let mut w_ok = false;
+    let mut w_ok_args = false;
+    let mut fooled_ok = false;
     let reserved = n == 0 || (n >= 2 && ob[0] == 0xff && ob[1] == 0xff);
     let too_long = n > 5;
     if reserved || too_long {
         assert!(r.is_err(), "C09/op_unknown/reserved-or-too-long-opcode-must-fail");
-        kani::cover!(reserved && n >= 2, "0xffff prefix");
-        kani::cover!(too_long && !reserved, "6-byte opcode");
-        std::mem::forget(a);
-        return;
-    }
-    let cf = ob[n - 1] >> 6;
-    let mut mult: u128 = 0;
-    let mut j = 0;
-    while j + 1 < n {
-        mult = (mult << 8) | ob[j] as u128;
-        j += 1;
-    }
-    match model_base(cf, new_model, &margs, k) {
-        None => {
-            assert!(r.is_err(), "C09/op_unknown/pair-argument-must-fail");
-            kani::cover!(true, "pair where an atom is required");
+        w_reserved = true;
+    } else {
+        let cf = ob[n - 1] >> 6;
+        let mut mult: u64 = 0;
+        let mut j = 0;
+        while j + 1 < n {
+            mult = (mult << 8) | ob[j] as u64;
+            j += 1;
         }
-        Some(base) => {
-            let product = base * (mult + 1);
-            if base > max_cost as u128 {
-                assert!(matches!(r, Err(EvalErr::CostExceeded)), "C09/op_unknown/base-over-budget-must-fail-cost-exceeded");
-                kani::cover!(true, "base exceeds the budget");
-            } else if product > u32::MAX as u128 {
-                if !new_model && product >= (1u128 << 64) {
-                    assert!(r.is_err(), "C09/op_unknown/legacy-product-wraps-u64");
-                    kani::cover!(true, "legacy product overflows 64 bits");
-                } else {
-                    assert!(r.is_err(), "C09/op_unknown/product-over-2^32-must-fail");
-                    kani::cover!(product >= (1u128 << 64), "product overflows 64 bits");
-                    kani::cover!(product < (1u128 << 64), "product in (2^32, 2^64)");
-                }
-            } else {
-                match r {
-                    Ok(Reduction(c, v)) => {
-                        assert!(c as u128 == product, "C09/op_unknown/cost-is-(multiplier+1)*base");
-                        assert!(v == a.nil(), "C09/op_unknown/result-is-nil");
-                        kani::cover!(cf == 0, "constant cost function");
-                        kani::cover!(cf == 1 && k >= 1, "add-like with arguments");
-                        kani::cover!(cf == 2 && k >= 2, "mul-like with >= 2 arguments");
-                        kani::cover!(cf == 3 && k >= 1, "concat-like with arguments");
-                        kani::cover!(mult > 0xffff, "3+ byte multiplier");
+        match model_base(cf, new_model, &margs, k) {
+            None => {
+                assert!(r.is_err(), "C09/op_unknown/pair-argument-must-fail");
+                w_pair = true;
+            }
+            Some(base) => {
+                // base < 2^45 here (lengths < 2^21, at most 3 arguments); the published rule wants failure
+                // whenever base * (mult + 1) > 2^32 - 1 as a mathematical product
+                let over = base > u32::MAX as u64 || base * (mult + 1) > u32::MAX as u64;
+                if base > max_cost {
+                    assert!(matches!(r, Err(EvalErr::CostExceeded)), "C09/op_unknown/base-over-budget-must-fail-cost-exceeded");
+                    w_budget = true;
+                } else if over {
+                    // the one way an implementation can be fooled: the product wraps 64 bits to a small value
+                    let fooled = base > u32::MAX as u64 && base.wrapping_mul(mult + 1) <= u32::MAX as u64;
+                    if !new_model && fooled {
+                        fooled_ok = r.is_ok();
+                    } else {
+                        assert!(r.is_err(), "C09/op_unknown/product-over-2^32-must-fail");
                     }
-                    Err(_) => assert!(false, "C09/op_unknown/valid-opcode-within-bounds-must-succeed"),
+                    w_over = true;
+                } else {
+                    match r {
+                        Ok(Reduction(c, v)) => {
+                            assert!(c == base * (mult + 1), "C09/op_unknown/cost-is-(multiplier+1)*base");
+                            assert!(v == a.nil(), "C09/op_unknown/result-is-nil");
+                            w_ok = true;
+                            w_ok_args = cf != 0;
+                        }
+                        Err(_) => assert!(false, "C09/op_unknown/valid-opcode-within-bounds-must-succeed"),
+                    }
                 }
             }
         }
     }
+    let valid_len = N >= 1 && N <= 5;
+    let all_cf = cf_fixed.is_none();
+    kani::cover!(!all_cf || valid_len && N < 2 || w_reserved, "reserved / too long opcode rejected");
+    kani::cover!(!all_cf || !pairs || !valid_len || K == 0 || w_pair, "pair where an atom is required");
+    kani::cover!(!valid_len || w_budget, "base exceeds the budget");
+    kani::cover!(!all_cf || !valid_len || !(N == 5 || (K >= 1 && N >= 3)) || w_over, "product above 2^32 - 1");
+    kani::cover!(!valid_len || w_ok, "valid opcode succeeds with the published cost");
+    kani::cover!(!all_cf || !valid_len || K == 0 || w_ok_args, "argument-dependent cost function succeeds");
+    assert!(!fooled_ok, "C09/op_unknown/legacy-product-wraps-u64");
     std::mem::forget(a);
 }
 
+/// the legacy 64-bit wrap, posed narrowly so that the solver only has to find the witness:
+/// mul-like cost function, 5-byte opcode, two atom arguments, pre-hard-fork model, unlimited budget
 proof! {
     #[kani::unwind(10)]
-    fn c09_unknown_legacy_2args() { run(false, 2); }
+    fn c09_legacy_wrap_mul_like() {
+        let mut a = Allocator::new();
+        let mb: [u8; 4] = kani::any();
+        let opb = [mb[0], mb[1], mb[2], mb[3], 0x80u8, 0, 0, 0];
+        kani::assume(!(mb[0] == 0xff && mb[1] == 0xff));
+        let base_atom = a.new_atom(&opb).unwrap();
+        let o = a.new_substr(base_atom, 0, 5).unwrap();
+        let l0: u32 = kani::any();
+        let l1: u32 = kani::any();
+        kani::assume(l0 < (1 << 21) && l1 < (1 << 21));
+        let x = a.verif_atom_span(0, l0);
+        let y = a.verif_atom_span(0, l1);
+        let nil = a.nil();
+        let t = a.new_pair(y, nil).unwrap();
+        let list = a.new_pair(x, t).unwrap();
+        let r = op_unknown(&mut a, o, list, u64::MAX, ClvmFlags::empty());
+        let mult = u32::from_be_bytes(mb) as u64;
+        let base: u64 = 92 + 885 + 6 * (l0 as u64 + l1 as u64) + (l0 as u64 * l1 as u64) / 128;
+        // mathematical product > 2^32 - 1 whenever base alone is
+        if base > u32::MAX as u64 {
+            kani::cover!(r.is_err(), "large base rejected");
+            assert!(r.is_err(), "C09/op_unknown/legacy-product-wraps-u64");
+        }
+        let _ = mult;
+        std::mem::forget(r);
+        std::mem::forget(a);
+    }
 }
-proof! {
-    #[kani::unwind(10)]
-    fn c09_unknown_newmodel_2args() { run(true, 2); }
-}
-proof! {
-    #[kani::unwind(10)]
-    fn c09_unknown_legacy_3args() { run(false, 3); }
-}
-proof! {
-    #[kani::unwind(10)]
-    fn c09_unknown_newmodel_3args() { run(true, 3); }
-}
+
+proof! { #[kani::unwind(10)] fn c09_unknown_op0b_0args_legacy() { run::<0, 0>(false); } }
+proof! { #[kani::unwind(10)] fn c09_unknown_op1b_0args_legacy() { run::<1, 0>(false); } }
+proof! { #[kani::unwind(10)] fn c09_unknown_op1b_0args_new() { run::<1, 0>(true); } }
+proof! { #[kani::unwind(10)] fn c09_unknown_op1b_1args_legacy() { run::<1, 1>(false); } }
+proof! { #[kani::unwind(10)] fn c09_unknown_op1b_1args_new() { run::<1, 1>(true); } }
+proof! { #[kani::unwind(10)] fn c09_unknown_op1b_2args_legacy() { run::<1, 2>(false); } }
+proof! { #[kani::unwind(10)] fn c09_unknown_op1b_2args_new() { run::<1, 2>(true); } }
+proof! { #[kani::unwind(10)] fn c09_unknown_op1b_3args_legacy() { run::<1, 3>(false); } }
+proof! { #[kani::unwind(10)] fn c09_unknown_op1b_3args_new() { run::<1, 3>(true); } }
+proof! { #[kani::unwind(10)] fn c09_unknown_op2b_0args_legacy() { run::<2, 0>(false); } }
+proof! { #[kani::unwind(10)] fn c09_unknown_op2b_0args_new() { run::<2, 0>(true); } }
+proof! { #[kani::unwind(10)] fn c09_unknown_op2b_1args_legacy() { run::<2, 1>(false); } }
+proof! { #[kani::unwind(10)] fn c09_unknown_op2b_1args_new() { run::<2, 1>(true); } }
+proof! { #[kani::unwind(10)] fn c09_unknown_op2b_2args_legacy() { run::<2, 2>(false); } }
+proof! { #[kani::unwind(10)] fn c09_unknown_op2b_2args_new() { run::<2, 2>(true); } }
+proof! { #[kani::unwind(10)] fn c09_unknown_op2b_3args_legacy() { run::<2, 3>(false); } }
+proof! { #[kani::unwind(10)] fn c09_unknown_op2b_3args_new() { run::<2, 3>(true); } }
+proof! { #[kani::unwind(10)] fn c09_unknown_op3b_0args_legacy() { run::<3, 0>(false); } }
+proof! { #[kani::unwind(10)] fn c09_unknown_op3b_0args_new() { run::<3, 0>(true); } }
+proof! { #[kani::unwind(10)] fn c09_unknown_op3b_1args_legacy() { run::<3, 1>(false); } }
+proof! { #[kani::unwind(10)] fn c09_unknown_op3b_1args_new() { run::<3, 1>(true); } }
+proof! { #[kani::unwind(10)] fn c09_unknown_op3b_2args_legacy() { run::<3, 2>(false); } }
+proof! { #[kani::unwind(10)] fn c09_unknown_op3b_2args_new() { run::<3, 2>(true); } }
+proof! { #[kani::unwind(10)] fn c09_unknown_op3b_3args_legacy() { run::<3, 3>(false); } }
+proof! { #[kani::unwind(10)] fn c09_unknown_op3b_3args_new() { run::<3, 3>(true); } }
+proof! { #[kani::unwind(10)] fn c09_unknown_op4b_0args_legacy() { run::<4, 0>(false); } }
+proof! { #[kani::unwind(10)] fn c09_unknown_op4b_0args_new() { run::<4, 0>(true); } }
+proof! { #[kani::unwind(10)] fn c09_unknown_op4b_1args_legacy() { run::<4, 1>(false); } }
+proof! { #[kani::unwind(10)] fn c09_unknown_op4b_1args_new() { run::<4, 1>(true); } }
+proof! { #[kani::unwind(10)] fn c09_unknown_op4b_2args_legacy() { run::<4, 2>(false); } }
+proof! { #[kani::unwind(10)] fn c09_unknown_op4b_2args_new() { run::<4, 2>(true); } }
+proof! { #[kani::unwind(10)] fn c09_unknown_op4b_3args_legacy() { run::<4, 3>(false); } }
+proof! { #[kani::unwind(10)] fn c09_unknown_op4b_3args_new() { run::<4, 3>(true); } }
+proof! { #[kani::unwind(10)] fn c09_unknown_op5b_0args_legacy() { run::<5, 0>(false); } }
+proof! { #[kani::unwind(10)] fn c09_unknown_op5b_0args_new() { run::<5, 0>(true); } }
+proof! { #[kani::unwind(10)] fn c09_unknown_op5b_1args_legacy() { run::<5, 1>(false); } }
+proof! { #[kani::unwind(10)] fn c09_unknown_op5b_1args_new() { run::<5, 1>(true); } }
+proof! { #[kani::unwind(10)] fn c09_unknown_op5b_2args_legacy() { run::<5, 2>(false); } }
+proof! { #[kani::unwind(10)] fn c09_unknown_op5b_2args_new() { run::<5, 2>(true); } }
+proof! { #[kani::unwind(10)] fn c09_unknown_op5b_3args_legacy() { run::<5, 3>(false); } }
+proof! { #[kani::unwind(10)] fn c09_unknown_op5b_3args_new() { run::<5, 3>(true); } }
+proof! { #[kani::unwind(10)] fn c09_unknown_op6b_0args_legacy() { run::<6, 0>(false); } }
+proof! { #[kani::unwind(10)] fn c09_unknown_op2b_2args_cf0_legacy() { run_cf::<2, 2>(false, Some(0)); } }
+proof! { #[kani::unwind(10)] fn c09_unknown_op4b_2args_cf0_legacy() { run_cf::<4, 2>(false, Some(0)); } }
+proof! { #[kani::unwind(10)] fn c09_unknown_op2b_2args_cf0_new() { run_cf::<2, 2>(true, Some(0)); } }
+proof! { #[kani::unwind(10)] fn c09_unknown_op4b_2args_cf0_new() { run_cf::<4, 2>(true, Some(0)); } }
+proof! { #[kani::unwind(10)] fn c09_unknown_op2b_2args_cf1_legacy() { run_cf::<2, 2>(false, Some(1)); } }
+proof! { #[kani::unwind(10)] fn c09_unknown_op4b_2args_cf1_legacy() { run_cf::<4, 2>(false, Some(1)); } }
+proof! { #[kani::unwind(10)] fn c09_unknown_op2b_2args_cf1_new() { run_cf::<2, 2>(true, Some(1)); } }
+proof! { #[kani::unwind(10)] fn c09_unknown_op4b_2args_cf1_new() { run_cf::<4, 2>(true, Some(1)); } }
+proof! { #[kani::unwind(10)] fn c09_unknown_op2b_2args_cf2_legacy() { run_cf::<2, 2>(false, Some(2)); } }
+proof! { #[kani::unwind(10)] fn c09_unknown_op4b_2args_cf2_legacy() { run_cf::<4, 2>(false, Some(2)); } }
+proof! { #[kani::unwind(10)] fn c09_unknown_op2b_2args_cf2_new() { run_cf::<2, 2>(true, Some(2)); } }
+proof! { #[kani::unwind(10)] fn c09_unknown_op4b_2args_cf2_new() { run_cf::<4, 2>(true, Some(2)); } }
+proof! { #[kani::unwind(10)] fn c09_unknown_op2b_2args_cf3_legacy() { run_cf::<2, 2>(false, Some(3)); } }
+proof! { #[kani::unwind(10)] fn c09_unknown_op4b_2args_cf3_legacy() { run_cf::<4, 2>(false, Some(3)); } }
+proof! { #[kani::unwind(10)] fn c09_unknown_op2b_2args_cf3_new() { run_cf::<2, 2>(true, Some(3)); } }
+proof! { #[kani::unwind(10)] fn c09_unknown_op4b_2args_cf3_new() { run_cf::<4, 2>(true, Some(3)); } }
+proof! { #[kani::unwind(10)] fn c09_unknown_op1b_3args_cf1_legacy() { run_cf_b::<1, 3>(false, Some(1), 1 << 12, false); } }
+proof! { #[kani::unwind(10)] fn c09_unknown_op1b_3args_cf1_new() { run_cf_b::<1, 3>(true, Some(1), 1 << 12, false); } }
+proof! { #[kani::unwind(10)] fn c09_unknown_op1b_3args_cf2_legacy() { run_cf_b::<1, 3>(false, Some(2), 1 << 12, false); } }
+proof! { #[kani::unwind(10)] fn c09_unknown_op1b_3args_cf2_new() { run_cf_b::<1, 3>(true, Some(2), 1 << 12, false); } }
+proof! { #[kani::unwind(10)] fn c09_unknown_op1b_3args_cf3_legacy() { run_cf_b::<1, 3>(false, Some(3), 1 << 12, false); } }
+proof! { #[kani::unwind(10)] fn c09_unknown_op1b_3args_cf3_new() { run_cf_b::<1, 3>(true, Some(3), 1 << 12, false); } }
